@@ -56,6 +56,12 @@ def _prim_names(node):
     return out
 
 
+def _raiser(m):
+    """the raiser with its private matching helpers inlined (a helper that hands back
+    (operation, operands) through early returns becomes the if/else chain it is)"""
+    return m.split_tuples(m.inlined(m.func(RAISER)))
+
+
 def _branches(fd):
     """(test, body) for every if/elif arm in fd"""
     for n in ast.walk(fd):
@@ -67,7 +73,13 @@ def r_arity(c):
     m = c.model
     hlos = hlo_classes(m)
     n = 0
-    for mi, fd in m.all_functions():
+    for mi, fd0 in m.all_functions():
+        if not any(isinstance(x, ast.Call) and isinstance(x.func, (ast.Name, ast.Attribute))
+                   and (x.func.id if isinstance(x.func, ast.Name) else x.func.attr) in hlos
+                   for x in ast.walk(fd0)):
+            continue
+        # matching helpers that hand back (operation, operands) are seen through
+        fd = m.split_tuples(m.inlined(fd0)) if m.enclosing_function(fd0) is None else fd0
         for call in ast.walk(fd):
             if not (isinstance(call, ast.Call) and isinstance(call.func, (ast.Name, ast.Attribute))):
                 continue
@@ -180,7 +192,7 @@ def _inner_var(fd):
 def r_order(c):
     """operand tuples list the scalar node's fields in the node's own order"""
     m = c.model
-    fd = m.func(RAISER)
+    fd = _raiser(m)
     pf = pymbolic_fields()
     n = 0
     var = _inner_var(fd)
@@ -234,7 +246,7 @@ def r_cascade(c):
     """a value known to be of node type T is only handed, as itself, to a
     cascade that has a case for T (otherwise the branch can only fail)"""
     m = c.model
-    fd = m.func(RAISER)
+    fd = _raiser(m)
     casc = m.func(CASCADE)
     accepted = set()
     for t in ast.walk(casc):
@@ -396,7 +408,7 @@ def r_producer(c):
     m = c.model
     arr = m.module("pytato.array")
     utils = m.module("pytato.utils")
-    rsrc = ast.unparse(m.func(RAISER))
+    rsrc = "\n".join(ast.unparse(f_) for f_ in m.scope(m.func(RAISER)))
     for fn, prim in PRODUCERS.items():
         if fn not in arr.functions:
             raise AnalysisError(f"anchor vanished: pytato.array.{fn}")
@@ -423,7 +435,7 @@ def r_producer(c):
 def r_patterns(c):
     """structural guards of the pattern matches"""
     m = c.model
-    fd = m.func(RAISER)
+    fd = _raiser(m)
     where = m.loc(m.module_of(fd), fd)
     # (1) every constant subscript X.children[k] used in a branch is dominated by a
     #     len(X.children) == n test (n > k) in the test of the same arm
